@@ -51,11 +51,121 @@ def run(ctx):
         siblings_agree(ctx, "T4-siblings-agree", a_, b_, "VecMatrix ~ Matrix", ignore=IGN, ignore_stores=True)
     siblings_agree(ctx, "T4-siblings-agree", "<num_rational::Ratio<num_bigint::BigInt> as geometry::traits::Entry>::clear_col",
                    "geometry::modular_solver::<impl geometry::traits::Entry for geometry::prime_residue_classes::PrimeResidueClass<P>>::clear_col", "field clear_col ~ field clear_col")
+    i64_row_step(ctx, g)
     padic_steps(ctx, g)
     residues(ctx)
     modulus(ctx)
     pivot(ctx)
     solve_guards(ctx)
+
+
+def _gcdx(a, b):
+    """the crate's extended Euclid (geometry::traits::gcdx) on Python ints with Rust's truncating division: (g, r, s, t, u)"""
+    a_, an = a, b
+    r, rn = 1, 0
+    s, sn = 0, 1
+    while an != 0:
+        q = int(a_ / an)
+        a_, an = an, a_ - q * an
+        r, rn = rn, r - q * rn
+        s, sn = sn, s - q * sn
+    return a_, r, s, rn, sn
+
+
+def i64_row_step(ctx, g):
+    """the integer elimination step (<i64 as Entry>::clear_col) replaces rows (row2, row1) by an integer combination built from
+    gcdx(a[row2][col], a[row1][col]).  Decided by evaluating the stored expressions on sample values: the 2x2 transformation has
+    determinant exactly +1 for every gcdx output (VecMatrix::determinant() only tracks row swaps), it is linear in the two rows, it puts
+    0 into a[row1][col] and +-gcd into a[row2][col], and the multiplier x gets exactly the same transformation as a."""
+    ctx.clauses.append("integer elimination step is a determinant-1 row operation that clears the column, applied identically to the multiplier (T4, symbolic evaluation on samples)")
+    b = ctx.body("<i64 as geometry::traits::Entry>::clear_col")
+    ctx.scan([b])
+    col, row1, row2 = (("param", i, b.debug.get(i, "")) for i in (1, 2, 3))
+    gx = [(bi, [strip(norm(b.origin(x), g)) for x in t["args"]]) for bi, t in b.calls(exact="geometry::traits::gcdx")]
+    ctx.floor("gcdx calls in <i64 as Entry>::clear_col", len(gx), 1)
+    if not gx:
+        return
+    m_t, n_t = gx[0][1]
+    def is_at(t, row):
+        return t[0] == "call" and t[1].endswith("Index::index") and strip(t[2][1]) == ("agg", "tuple", (row, col))
+    okg = is_at(m_t, row2) and is_at(n_t, row1) and m_t[2][0] == n_t[2][0]
+    ctx.ob("T4-int-row-step", b.name, "gcdx(a[(row2, col)], a[(row1, col)])", "ok" if okg else "violation",
+           "the coefficients come from the two entries of the pivot column" if okg else "gcdx is not applied to a[(row2, col)], a[(row1, col)]: %s, %s" % (show(m_t, 1)[:50], show(n_t, 1)[:50]), b.span_of(gx[0][0]))
+    G = ("call", "geometry::traits::gcdx", (m_t, n_t))
+    R, S, T, U = (("field", G, str(i)) for i in (1, 2, 3, 4))
+    # stores by (matrix term, row)
+    stores = {}
+    for bi, t in b.calls("IndexMut::index_mut"):
+        a = [strip(norm(b.origin(x), g)) for x in t["args"]]
+        dest = t["dest"]["l"]
+        if not (a[1][0] == "agg" and len(a[1][2]) == 2):
+            continue
+        for bj, si, s in b.assigns():
+            p = s["place"]
+            if p["l"] == dest and [e["k"] for e in p["p"]] == ["deref"]:
+                stores[(a[0], a[1][2][0])] = (a[1][2][1], norm(b.rv_origin(s["rv"]), g), bj)
+    mats = sorted({k[0] for k in stores}, key=str)
+    ctx.floor("matrices updated by the integer row step (a and x)", len(mats), 2)
+    samples = [(m, n) for m in (-7, -4, -1, 2, 3, 6, 12) for n in (-9, -6, 1, 4, 5, 10)]
+    coeffs = {}
+    for mt in mats:
+        if (mt, row1) not in stores or (mt, row2) not in stores:
+            ctx.ob("T4-int-row-step", b.name, "stores:" + show(mt, 1)[:20], "violation", "the row step does not store both rows of " + show(mt, 1)[:30])
+            continue
+        k1, e1, b1 = stores[(mt, row1)]
+        k2, e2, b2 = stores[(mt, row2)]
+        X2 = ("call", "std::ops::Index::index", (mt, ("agg", "tuple", (row2, k2))))
+        X1 = ("call", "std::ops::Index::index", (mt, ("agg", "tuple", (row1, k1))))
+        bad = None
+        cs = []
+        for (m, n) in samples:
+            for sg in (1, -1):
+                g_, r, s_, t, u = _gcdx(m, n)
+                t, u = sg * t, sg * u
+                env = {R: r, S: s_, T: t, U: u}
+                def ev(e, x2, x1):
+                    env2 = dict(env)
+                    env2[X2] = x2
+                    env2[X1] = x1
+                    return eval_term_env(stripcalls(e), {stripcalls(k): v for k, v in env2.items()})
+                c = [[ev(e2, 1, 0), ev(e2, 0, 1)], [ev(e1, 1, 0), ev(e1, 0, 1)]]
+                if any(v is None for row in c for v in row):
+                    bad = bad or "the stored expressions are not integer combinations of the two rows with coefficients from gcdx (cannot be evaluated)"
+                    break
+                cs.append(((m, n, sg), c))
+                lin = ev(e2, 2, 3) == 2 * c[0][0] + 3 * c[0][1] and ev(e1, 2, 3) == 2 * c[1][0] + 3 * c[1][1]
+                det = c[0][0] * c[1][1] - c[0][1] * c[1][0]
+                if not lin:
+                    bad = bad or "the row step is not linear in the two rows"
+                elif det != 1:
+                    bad = bad or ("for gcdx(%d, %d) = (g, r, s, t, u) = %s the transformation [[%d, %d], [%d, %d]] has determinant %d, not +1: determinant() (which only tracks row swaps) gets the wrong sign/value"
+                                  % (m, n, (g_, r, s_, t, u), c[0][0], c[0][1], c[1][0], c[1][1], det))
+                elif c[1][0] * m + c[1][1] * n != 0:
+                    bad = bad or "for column entries (%d, %d) the new a[(row1, col)] is %d, not 0: the column is not cleared" % (m, n, c[1][0] * m + c[1][1] * n)
+                elif abs(c[0][0] * m + c[0][1] * n) != abs(g_):
+                    bad = bad or "for column entries (%d, %d) the new a[(row2, col)] is %d, not +-gcd = %d" % (m, n, c[0][0] * m + c[0][1] * n, g_)
+        coeffs[mt] = cs
+        ctx.ob("T4-int-row-step", b.name, "unimodular:" + show(mt, 1)[:20], "ok" if not bad else "violation",
+               "determinant +1, linear, clears a[(row1, col)], leaves +-gcd in a[(row2, col)] on %d sampled gcdx outputs" % len(cs) if not bad else bad, b.span_of(b2))
+    if len(coeffs) == 2:
+        (ma, ca), (mx, cx) = sorted(coeffs.items(), key=lambda kv: str(kv[0]))
+        same = ca == cx
+        ctx.ob("T4-int-row-step", b.name, "a and x get the same transformation", "ok" if same else "violation",
+               "the multiplier is transformed exactly like the matrix" if same else "the row operation applied to the multiplier x differs from the one applied to a: x * original != echelon form")
+    # k ranges
+    for mt in mats:
+        if (mt, row1) in stores:
+            k1 = stores[(mt, row1)][0]
+            r_ = loop_range_of_payload(b, k1, g)
+            is_a = mt[0] == "param"
+            okr = r_ is not None and not r_[2] and is_call(r_[1], "nr_columns") and (r_[0] == ("int", 0) or (is_a and strip(r_[0]) == col))
+            ctx.ob("T4-int-row-step", b.name, "columns:" + show(mt, 1)[:20], "ok" if okr else "violation",
+                   "every column %s is transformed" % ("from col on (the earlier ones are zero in both rows)" if is_a and r_ and strip(r_[0]) == col else "0..nr_columns()") if okr else
+                   "the row step does not cover the columns %s..nr_columns(): %s" % ("col" if is_a else "0", r_ and (show(r_[0], 1)[:30], show(r_[1], 1)[:40])))
+
+
+def stripcalls(t):
+    return map_term(strip(t) if isinstance(t, tuple) else t, lambda x: (x[0], x[1], tuple(strip(a) for a in x[2])) if x[0] == "call" else (strip(x) if x[0] in ("ref", "deref") else None))
 
 
 def padic_steps(ctx, g):
